@@ -5,6 +5,7 @@ from pyvc.run import run_property
 prop = sys.argv[1]
 r = run_property(prop)
 for u in r['undecided']: print("UNDECIDED", u)
+for t, e in r['errors']: print("ERROR", t, e[-400:])
 for name, ob in sorted(r['obligations'].items()):
     st = ob.status
     print("%-11s %-60s vcs=%d t=%.2fs %s" % (st, name, len(ob.vcs), sum(v.time for v in ob.vcs), set(v.backend for v in ob.vcs)))
